@@ -13,7 +13,7 @@ SPEC = dict(
         thorough=[
             dict(name="c51_lru", bounds="as quick with every sequence of 5 operations (del() only for key 1)", reach=["done", "added", "rejected", "hit", "miss", "relimit", "purged-for-add", "purged-for-limit"], sample_every=60001),
             dict(name="c51_ttl", bounds="as quick with every sequence of 4 operations", reach=["done", "added", "rejected", "hit", "miss", "expired", "purged-for-add"], sample_every=2001),
-            dict(name="c51_sizes", bounds="same as quick (sequences of 3 operations did not finish in 25 minutes)", reach=["done", "added", "rejected", "relimit", "purged-for-add", "purged-for-limit"], sample_every=101),
+            dict(name="c51_sizes", bounds="as quick, del() only for key 1 (sequences of 3 operations did not finish in 25 minutes)", reach=["done", "added", "rejected", "relimit", "purged-for-add", "purged-for-limit"], sample_every=101),
         ]),
     timeout=dict(quick=170, thorough=1500),
     stubs=["std::__detail::_List_node_base::_M_transfer and _Prime_rehash_policy::_M_next_bkt/_M_need_rehash defined in the harness for the interpreted build (libstdc++.so has no bitcode; bucket counts above 13 are odd numbers instead of primes)",
